@@ -179,3 +179,549 @@ def solve_case(job):
         out["trace"] = traceback.format_exc()[-1500:]
     out["seconds"] = round(time.time() - t0, 1)
     return out
+
+
+MODELS["quarticwide"] = dict(kind="quartic1", Tn=1.8, D=0.2, E=0.12, lam=0.1, T0=1.0, g=100.0,
+                             dTscale=0.02, phiscale=1.0, wallThicknessGuess=5.0,
+                             meanFreePathScale=50.0)
+# Is the Jouguet point inside the temperature range over which the low-T phase exists?
+# (Yukawa: the low-T phase ends at 1.133 Tn, below the Jouguet T-, so vJ there is computed
+# from the extrapolated EOS and is outside the property's quantifier.)
+JOUGUET_INSIDE = {"yukawa": False, "yukawa4": False, "quarticwide": True}
+
+# quantity -> (mass dimension, kind of tolerance)
+DIMLESS = ["vw", "vwLTE", "vJ", "alphaN", "alpha", "csqHigh", "csqLow", "vMin", "offset",
+           "muMinLowT", "csqLowExt"]
+DIMFUL = {"width": -1, "Tplus": 1, "Tminus": 1, "pHigh": 4, "pLow": 4, "dpHigh": 3,
+          "ddpLow": 2, "eHigh": 4, "wLow": 4, "TMinLowT": 1, "TMinHighT": 1, "pLowExt": 4}
+
+
+def tolerance_for(q, tols):
+    """tolerances derived from the configuration of the run (relative unless noted)"""
+    eT, pT, hR = tols["errTol"], tols["phaseTracerTol"], tols["hydroRtol"]
+    eos = max(1e3 * pT, 100 * hR)
+    if q == "vw":
+        return 3 * eT            # absolute: root_scalar(xtol=errTol) in both runs + pressure tol
+    if q in ("Tplus", "Tminus"):
+        return 2 * eT
+    if q == "width":
+        return max(10 * eT, 5e-3)
+    if q == "offset":
+        return max(10 * eT, 5e-3)
+    if q in ("vwLTE", "vJ", "vMin"):
+        return eos
+    if q in ("TMinLowT", "TMinHighT"):
+        return 1e-2              # end of the traced range: set by the tracer's step
+    if q in ("muMinLowT", "csqLowExt", "pLowExt"):
+        return 1e-3              # extrapolation: second derivative at the range end
+    return eos
+
+
+def compare_runs(ctx, ref, run, tols, tolname):
+    """dimensionless outputs equal, dimensionful ones scaled by lam^d"""
+    name, lam = run["model"], run["unit"] / ref["unit"]
+    bad = []
+    if ("raised" in ref) != ("raised" in run):
+        r = run if "raised" in run else ref
+        ctx.fail_input(
+            "%s [%s]: the run with unit factor %g raises (%s) while the run with unit "
+            "factor %g succeeds" % (name, tolname, r["unit"], r["raised"],
+                                    (ref if r is run else run)["unit"]),
+            dict(kind="metamorphic", model=name, tols=tolname, units=[ref["unit"], run["unit"]],
+                 quantity="raises", raised=r["raised"]), key="metamorphic:raises")
+        return ["raises"]
+    if "raised" in ref:
+        return []
+    for q in DIMLESS + list(DIMFUL):
+        if q not in ref or q not in run:
+            continue
+        if q == "vJ" and not JOUGUET_INSIDE.get(name, True):
+            continue
+        d = DIMFUL.get(q, 0)
+        a, b = ref[q], run[q] / lam ** d
+        tol = tolerance_for(q, tols)
+        dev = abs(a - b) if q in ("vw", "offset") else abs(a - b) / max(abs(a), 1e-300)
+        ctx.count("metamorphic_compare", bucket=q)
+        if not dev <= tol:
+            bad.append(q)
+            ctx.fail_input(
+                "%s [%s tolerances]: %s = %.10g in units x%g but %.10g (rescaled by "
+                "lam^%d) in units x%g: deviation %.3g > %.3g" % (
+                    name, tolname, q, a, ref["unit"], b, d, run["unit"], dev, tol),
+                dict(kind="metamorphic", model=name, tols=tolname,
+                     units=[ref["unit"], run["unit"]], quantity=q, reference=a, rescaled=b,
+                     dimension=d, deviation=dev, tolerance=tol),
+                key="metamorphic:%s" % q)
+    if "success" in ref and ref["success"] != run["success"]:
+        bad.append("success")
+        ctx.fail_input("%s [%s]: success flag %s vs %s under unit factor %g" % (
+            name, tolname, ref["success"], run["success"], lam),
+            dict(kind="metamorphic", model=name, tols=tolname,
+                 units=[ref["unit"], run["unit"]], quantity="success"),
+            key="metamorphic:success")
+    return bad
+
+
+# =====================================================================================
+# the proved scaling laws evaluated on the implementation's own functions
+# =====================================================================================
+
+class StubEos:
+    """p = a T^4 / 3 - eps  per phase (exact bag-like EOS)"""
+
+    def __init__(self, aH, epsH, aL, epsL, nuL):
+        self.c = (aH, epsH, aL, epsL, nuL)
+
+    def pHighT(self, T): return self.c[0] * T ** 4 / 3 - self.c[1]
+    def eHighT(self, T): return self.c[0] * T ** 4 + self.c[1]
+    def pLowT(self, T): return self.c[2] * T ** 4 / 3 - self.c[3]
+    def eLowT(self, T): return self.c[2] * T ** 4 + self.c[3]
+    def csqHighT(self, T): return 1 / 3 + 0 * T
+    def csqLowT(self, T): return self.c[4] + 0 * T
+
+    def scaled(self, lam):
+        aH, eH, aL, eL, nu = self.c
+        return StubEos(aH, eH * lam ** 4, aL, eL * lam ** 4, nu)
+
+
+class StubPotential:
+    """V = k2 T^2 phi^2 - k3 T phi^3 + k4 phi^4 - g T^4 (homogeneous of degree 4)"""
+
+    def __init__(self, k2, k3, k4, g):
+        self.k = (k2, k3, k4, g)
+
+    def evaluate(self, fields, T):
+        k2, k3, k4, g = self.k
+        phi = np.asarray(fields).reshape(-1)[0]
+        return k2 * T ** 2 * phi ** 2 - k3 * T * phi ** 3 + k4 * phi ** 4 - g * T ** 4
+
+    def derivT(self, fields, T):
+        k2, k3, k4, g = self.k
+        phi = np.asarray(fields).reshape(-1)[0]
+        return 2 * k2 * T * phi ** 2 - k3 * phi ** 3 - 4 * g * T ** 3
+
+
+def rel(a, b):
+    return abs(a - b) / max(abs(a), abs(b), 1e-300)
+
+
+def direct_formula_checks(ctx, n):
+    import WallGo
+    from WallGo import Fields, WallParams
+    from WallGo.equationOfMotion import EOM
+    from WallGo.hydrodynamics import Hydrodynamics
+    from WallGo.grid3Scales import Grid3Scales
+    rng = ctx.rng
+
+    def fail(what, case, key):
+        ctx.fail_input(what, dict(kind="formula", case=case), key="formula:" + key)
+
+    for i in range(n):
+        lam = rng.choice([1e-2, 1e-1, 0.5, 3.0, 10.0, 100.0])
+        # ---- Thermodynamics with analytic free energies (the class under test is real)
+        cH = [Fraction(rng.randint(-20, 20)), Fraction(0), Fraction(rng.randint(0, 24), 2),
+              -Fraction(rng.randint(0, 8), 8), -Fraction(rng.randint(4, 40), 4)]
+        cL = [Fraction(rng.randint(-20, 20)), Fraction(0), Fraction(rng.randint(0, 24), 2),
+              -Fraction(rng.randint(0, 8), 8), -Fraction(rng.randint(4, 40), 4)]
+
+        def rng_for(c):
+            lo = math.sqrt(float(c[2] / -c[4]) + 0.25) + 0.2 + rng.random()
+            return lo, lo + 0.3 + 3 * rng.random()
+        rH, rL = rng_for(cH), rng_for(cL)
+        th = wgmodels.stub_thermodynamics(cH, rH, cL, rL, rH[0])
+        th.setExtrapolate()
+        sc = lambda c: [float(k) * lam ** (4 - j) for j, k in enumerate(c)]
+        th2 = wgmodels.stub_thermodynamics(sc(cH), [lam * x for x in rH], sc(cL),
+                                           [lam * x for x in rL], lam * rH[0])
+        th2.setExtrapolate()
+        case = dict(lam=lam, cHigh=[str(k) for k in cH], cLow=[str(k) for k in cL],
+                    rangeHigh=rH, rangeLow=rL)
+        for ph, r in (("High", rH), ("Low", rL)):
+            for T in (0.3 * r[0], 0.9 * r[0], r[0] + 0.4 * (r[1] - r[0]), 1.1 * r[1],
+                      4.0 * r[1]):
+                for fn, d in (("p", 4), ("dp", 3), ("ddp", 2), ("e", 4), ("w", 4), ("csq", 0)):
+                    a = float(getattr(th, fn + ph + "T")(T))
+                    b = float(getattr(th2, fn + ph + "T")(lam * T)) / lam ** d
+                    ctx.count("formula_thermo")
+                    # p and e contain the difference A T^mu/3 - eps: compare against |w|
+                    scale = abs(float(getattr(th, "w" + ph + "T")(T))) if d == 4 else abs(a)
+                    if abs(a - b) > 1e-9 * max(scale, abs(a), 1e-300):
+                        fail("%s%sT does not scale like lam^%d: %r vs %r (lam=%g, T=%g)" % (
+                            fn, ph, d, a, b, lam, T), dict(case, T=T, fn=fn + ph + "T"),
+                            "thermo:" + fn)
+        Tm = 0.5 * (max(rH[0], rL[0]) + min(rH[1], rL[1]))
+        a, b = float(th.alpha(Tm)), float(th2.alpha(lam * Tm))
+        ctx.count("formula_thermo")
+        if abs(a - b) > 1e-9 * max(abs(a), 1e-6):
+            fail("alpha(T) is not invariant: %r vs %r" % (a, b), dict(case, T=Tm),
+                 "thermo:alpha")
+        for at, d in (("muMinHighT", 0), ("muMaxLowT", 0), ("epsilonMinLowT", 4),
+                      ("epsilonMaxHighT", 4)):
+            a, b = getattr(th, at), getattr(th2, at) / lam ** d
+            ctx.count("formula_thermo")
+            if rel(a, b) > 1e-9 and abs(a - b) > 1e-9 * abs(float(th.wHighT(rH[1]))):
+                fail("%s does not scale like lam^%d: %r vs %r" % (at, d, a, b), case,
+                     "thermo:" + at)
+        for at, mu in (("aMinHighT", "muMinHighT"), ("aMaxLowT", "muMaxLowT")):
+            a, b = getattr(th, at), getattr(th2, at) / lam ** (4 - getattr(th, mu))
+            ctx.count("formula_thermo")
+            if rel(a, b) > 1e-8:
+                fail("%s does not scale like lam^(4-mu): %r vs %r" % (at, a, b), case,
+                     "thermo:" + at)
+        # ---- Hydrodynamics formulas on a bag-like EOS
+        eos = StubEos(rng.uniform(20, 40), rng.uniform(0.5, 3), rng.uniform(10, 19),
+                      rng.uniform(0, 0.4), rng.uniform(0.2, 0.33))
+        hy = object.__new__(Hydrodynamics)
+        hy.thermodynamics = eos
+        hy.TMinHydro, hy.TMaxHydro = 0.3, 7.0
+        hy2 = object.__new__(Hydrodynamics)
+        hy2.thermodynamics = eos.scaled(lam)
+        hy2.TMinHydro, hy2.TMaxHydro = 0.3 * lam, 7.0 * lam
+        Tp, Tm = rng.uniform(0.8, 2), rng.uniform(0.8, 2)
+        case = dict(lam=lam, eos=eos.c, Tp=Tp, Tm=Tm)
+        a, b = hy.vpvmAndvpovm(Tp, Tm), hy2.vpvmAndvpovm(lam * Tp, lam * Tm)
+        ctx.count("formula_hydro")
+        if rel(a[0], b[0]) > 1e-9 or rel(a[1], b[1]) > 1e-9:
+            fail("vpvmAndvpovm not invariant: %r vs %r" % (a, b), case, "vpvm")
+        v, xi = rng.uniform(0.05, 0.6), rng.uniform(0.62, 0.95)
+        for sw in (True, False):
+            a, b = hy.shockDE(v, [xi, Tp], sw), hy2.shockDE(v, [xi, lam * Tp], sw)
+            ctx.count("formula_hydro")
+            if rel(a[0], b[0]) > 1e-9 or rel(a[1], b[1] / lam) > 1e-9:
+                fail("shockDE does not scale as (1, lam): %r vs %r" % (a, b),
+                     dict(case, v=v, xi=xi, shockWave=sw), "shockDE")
+        a, b = hy._mappingT([Tp, Tm]), hy2._mappingT([lam * Tp, lam * Tm])
+        ia, ib = hy._inverseMappingT(a), hy2._inverseMappingT(a)
+        ctx.count("formula_hydro")
+        if max(rel(a[0], b[0]), rel(a[1], b[1])) > 1e-9 or \
+                max(rel(ia[0], ib[0] / lam), rel(ia[1], ib[1] / lam)) > 1e-9:
+            fail("_mappingT/_inverseMappingT not covariant: %r %r %r %r" % (a, b, ia, ib),
+                 case, "mappingT")
+        # ---- EOM formulas on a homogeneous potential (one field)
+        pot = StubPotential(rng.uniform(0.1, 0.4), rng.uniform(0.01, 0.1),
+                            rng.uniform(0.02, 0.2), rng.uniform(5, 30))
+
+        class PotL(StubPotential):
+            def evaluate(self, f, T): return lam ** 4 * pot.evaluate(np.asarray(f) / lam, T / lam)
+            def derivT(self, f, T): return lam ** 3 * pot.derivT(np.asarray(f) / lam, T / lam)
+        eom, eom2 = object.__new__(EOM), object.__new__(EOM)
+        eom.thermo = type("T", (), {"effectivePotential": pot})()
+        eom2.thermo = type("T", (), {"effectivePotential": PotL(0, 0, 0, 0)})()
+        w, off, z = rng.uniform(2, 9), rng.uniform(-1, 1), rng.uniform(-10, 10)
+        vL, vH = rng.uniform(1, 3), rng.uniform(0, 0.2)
+        wp = WallParams(widths=np.array([w]), offsets=np.array([off]))
+        wp2 = WallParams(widths=np.array([w / lam]), offsets=np.array([off]))
+        f1, d1 = eom.wallProfile(z, Fields([vL]), Fields([vH]), wp)
+        f2, d2 = eom2.wallProfile(z / lam, Fields([lam * vL]), Fields([lam * vH]), wp2)
+        f1, d1, f2, d2 = (float(np.asarray(x).reshape(-1)[0]) for x in (f1, d1, f2, d2))
+        case = dict(lam=lam, pot=pot.k, w=w, off=off, z=z, vL=vL, vH=vH)
+        ctx.count("formula_eom")
+        if rel(f1, f2 / lam) > 1e-9 or rel(d1, d2 / lam ** 2) > 1e-9:
+            fail("wallProfile does not scale as (lam, lam^2): %r %r vs %r %r" % (
+                f1, d1, f2, d2), case, "wallProfile")
+        T, s1, s2 = rng.uniform(0.8, 1.5), rng.uniform(-30, -1), rng.uniform(1, 30)
+        fp = Fields([f1]).getFieldPoint(0)
+        fp2 = Fields([lam * f1]).getFieldPoint(0)
+        dp1 = Fields([d1]).getFieldPoint(0)
+        dp2 = Fields([lam ** 2 * d1]).getFieldPoint(0)
+        a = eom.plasmaVelocity(fp, T, s1)
+        b = eom2.plasmaVelocity(fp2, lam * T, lam ** 4 * s1)
+        ctx.count("formula_eom")
+        if rel(a, b) > 1e-9:
+            fail("plasmaVelocity not invariant: %r vs %r" % (a, b), dict(case, T=T, s1=s1),
+                 "plasmaVelocity")
+        a = eom.temperatureProfileEqLHS(fp, dp1, T, s1, s2)
+        b = eom2.temperatureProfileEqLHS(fp2, dp2, lam * T, lam ** 4 * s1, lam ** 4 * s2)
+        ctx.count("formula_eom")
+        if abs(a - b / lam ** 4) > 1e-9 * (abs(a) + abs(s1) + abs(s2)):
+            fail("temperatureProfileEqLHS does not scale like lam^4: %r vs %r" % (a, b),
+                 dict(case, T=T, s1=s1, s2=s2), "temperatureProfileEqLHS")
+        # ---- Grid3Scales: parameters and the position map
+        L = rng.uniform(1, 8)
+        r, sm = rng.choice([0.3, 0.5, 0.7]), rng.choice([0.05, 0.1, 0.3])
+        tin = L * (0.5 + sm) / r * rng.uniform(1.2, 6)
+        tout = L * (0.5 + sm) / r * rng.uniform(1.2, 6)
+        c0 = rng.uniform(-2, 2)
+        g1 = Grid3Scales(12, 5, tin, tout, L, 1.0, r, sm, c0)
+        g2 = Grid3Scales(12, 5, tin / lam, tout / lam, L / lam, lam, r, sm, c0 / lam)
+        case = dict(lam=lam, tailIn=tin, tailOut=tout, L=L, r=r, smoothing=sm, center=c0)
+        ctx.count("formula_grid")
+        if rel(g1.aIn, g2.aIn) > 1e-9 or rel(g1.aOut, g2.aOut) > 1e-9:
+            fail("Grid3Scales aIn/aOut not invariant", case, "grid:a")
+        chi = np.array([-0.9, -0.4, 0.1, 0.6, 0.95])
+        z1, pz1, pp1 = g1.decompactify(chi, chi, chi * 0.5 + 0.5 - 1e-3)
+        z2, pz2, pp2 = g2.decompactify(chi, chi, chi * 0.5 + 0.5 - 1e-3)
+        if np.max(np.abs(z1 - z2 * lam)) > 1e-9 * np.max(np.abs(z1)) or \
+                np.max(np.abs(pz1 - pz2 / lam)) > 1e-9 * np.max(np.abs(pz1)) or \
+                np.max(np.abs(pp1 - pp2 / lam)) > 1e-9 * np.max(np.abs(pp1)):
+            fail("Grid3Scales.decompactify not covariant (z~1/lam, p~lam)", case, "grid:map")
+        if i == 0:
+            ctx.sample(dict(formula_case=case))
+
+
+# =====================================================================================
+# certified correspondence: generated definitions vs the implementation
+# =====================================================================================
+
+def dy(x, bits=20):
+    """nearby dyadic rational (exactly representable on both sides)"""
+    return Fraction(round(x * 2 ** bits), 2 ** bits)
+
+
+def corr_file(rng, ncases):
+    from WallGo import Fields, WallParams
+    from WallGo.equationOfMotion import EOM
+    from WallGo.hydrodynamics import Hydrodynamics
+    from WallGo.grid3Scales import Grid3Scales
+    R = pyrx.rlit
+    hdr = """From Coq Require Import Reals Lra.
+From Interval Require Import Tactic.
+From WG Require Import Lib.NumpySem.
+From GenC07 Require Import UnitsGen.
+Local Open Scope R_scope.
+"""
+    goals, rows = [], []
+
+    def goal(term, y, pre=""):
+        q = Fraction(y)
+        tol = abs(q) * Fraction(1, 10 ** 9) + Fraction(1, 10 ** 12)
+        goals.append("Goal Rabs (%s - %s) <= %s.\nProof. %s interval with (i_prec 90). Qed." % (
+            term, R(q), R(tol), pre))
+        rows.append((term[:60], float(y)))
+
+    for k in range(ncases):
+        aH, eH, aL, eL = (dy(rng.uniform(20, 40), 8), dy(rng.uniform(0.5, 3), 8),
+                          dy(rng.uniform(10, 19), 8), dy(rng.uniform(0, 0.4), 8))
+        nu = dy(rng.uniform(0.2, 0.33), 8)
+        eos = StubEos(*(float(x) for x in (aH, eH, aL, eL, nu)))
+        hy = object.__new__(Hydrodynamics)
+        hy.thermodynamics = eos
+        tmin, tmax = dy(rng.uniform(0.2, 0.5), 6), dy(rng.uniform(5, 9), 6)
+        hy.TMinHydro, hy.TMaxHydro = float(tmin), float(tmax)
+        env = "hy%d" % k
+        hdr += ("Definition %s := {| hy_TMaxHydro := %s; hy_TMinHydro := %s;\n"
+                "  th_pHighT := fun T => %s * T ^ 4 / 3 - %s; th_pLowT := fun T => %s * T ^ 4 / 3 - %s;\n"
+                "  th_eHighT := fun T => %s * T ^ 4 + %s; th_eLowT := fun T => %s * T ^ 4 + %s;\n"
+                "  th_csqHighT := fun T => 1 / 3 + 0 * T; th_csqLowT := fun T => %s + 0 * T |}.\n" % (
+                    env, R(tmax), R(tmin), R(aH), R(eH), R(aL), R(eL), R(aH), R(eH), R(aL),
+                    R(eL), R(nu)))
+        Tp, Tm = dy(rng.uniform(0.8, 2), 8), dy(rng.uniform(0.8, 2), 8)
+        vpvm, vpovm = hy.vpvmAndvpovm(float(Tp), float(Tm))
+        # e+ > e- for these coefficient ranges (aH T^4 + eH vs aL T^4 + eL) is decided by
+        # the implementation; the model takes the same branch iff e+ <> e-
+        pre = ("unfold hy_vpvmAndvpovm, %s; cbn [th_pHighT th_pLowT th_eHighT th_eLowT fst snd]; "
+               "try match goal with |- context [Req_EM_T ?a ?b] => destruct (Req_EM_T a b) as [E|E]; "
+               "[exfalso; revert E; apply %s; interval|] end; cbn [negb fst snd];" % (
+                   env, "Rgt_not_eq" if eos.eHighT(float(Tp)) > eos.eLowT(float(Tm))
+                   else "Rlt_not_eq"))
+        goal("fst (hy_vpvmAndvpovm %s %s %s)" % (env, R(Tp), R(Tm)), vpvm, pre)
+        goal("snd (hy_vpvmAndvpovm %s %s %s)" % (env, R(Tp), R(Tm)), vpovm, pre)
+        v, xi = dy(rng.uniform(0.05, 0.6), 8), dy(rng.uniform(0.62, 0.95), 8)
+        for sw, nm in ((True, "hy_shockDE_shock"), (False, "hy_shockDE_rarefaction")):
+            a = hy.shockDE(float(v), [float(xi), float(Tp)], sw)
+            pre = ("unfold %s, hp_gammaSq, hp_boostVelocity, %s; cbn [th_csqHighT th_csqLowT "
+                   "fst snd];" % (nm, env))
+            goal("fst (%s %s %s (%s, %s) %s)" % (nm, env, R(v), R(xi), R(Tp),
+                                                  "true" if sw else "false"), a[0], pre)
+            goal("snd (%s %s %s (%s, %s) %s)" % (nm, env, R(v), R(xi), R(Tp),
+                                                  "true" if sw else "false"), a[1], pre)
+        m = hy._mappingT([float(Tp), float(Tm)])
+        pre = "unfold hy_mappingT, %s; cbn [hy_TMaxHydro hy_TMinHydro fst snd];" % env
+        goal("fst (hy_mappingT %s (%s, %s))" % (env, R(Tp), R(Tm)), m[0], pre)
+        goal("snd (hy_mappingT %s (%s, %s))" % (env, R(Tp), R(Tm)), m[1], pre)
+        x, y = dy(rng.uniform(-3, 3), 8), dy(rng.uniform(-3, 3), 8)
+        im = hy._inverseMappingT([float(x), float(y)])
+        pre = "unfold hy_inverseMappingT, %s; cbn [hy_TMaxHydro hy_TMinHydro fst snd];" % env
+        goal("fst (hy_inverseMappingT %s (%s, %s))" % (env, R(x), R(y)), im[0], pre)
+        goal("snd (hy_inverseMappingT %s (%s, %s))" % (env, R(x), R(y)), im[1], pre)
+        # EOM
+        k2, k3, k4, g = (dy(rng.uniform(0.1, 0.4), 8), dy(rng.uniform(0.01, 0.1), 8),
+                         dy(rng.uniform(0.02, 0.2), 8), dy(rng.uniform(5, 30), 6))
+        pot = StubPotential(*(float(t) for t in (k2, k3, k4, g)))
+        eom = object.__new__(EOM)
+        eom.thermo = type("T", (), {"effectivePotential": pot})()
+        w, off, z = dy(rng.uniform(2, 9), 6), dy(rng.uniform(-1, 1), 8), dy(rng.uniform(-10, 10), 6)
+        vL, vH = dy(rng.uniform(1, 3), 8), dy(rng.uniform(0, 0.2), 8)
+        ee = "eo%d" % k
+        hdr += ("Definition %s := {| wp_widths := %s; wp_offsets := %s;\n"
+                "  veff_dT := fun phi T => 2 * %s * T * phi ^ 2 - %s * phi ^ 3 - 4 * %s * T ^ 3;\n"
+                "  veff := fun phi T => %s * T ^ 2 * phi ^ 2 - %s * T * phi ^ 3 + %s * phi ^ 4 - %s * T ^ 4 |}.\n"
+                % (ee, R(w), R(off), R(k2), R(k3), R(g), R(k2), R(k3), R(k4), R(g)))
+        wp = WallParams(widths=np.array([float(w)]), offsets=np.array([float(off)]))
+        f1, d1 = eom.wallProfile(float(z), Fields([float(vL)]), Fields([float(vH)]), wp)
+        f1, d1 = (float(np.asarray(t).reshape(-1)[0]) for t in (f1, d1))
+        pre = ("unfold eom_wallProfile, %s, tanh, cosh; cbn [wp_widths wp_offsets fst snd];" % ee)
+        goal("fst (eom_wallProfile %s %s %s %s 0)" % (ee, R(z), R(vL), R(vH)), f1, pre)
+        goal("snd (eom_wallProfile %s %s %s %s 0)" % (ee, R(z), R(vL), R(vH)), d1, pre)
+        T, s1, s2 = dy(rng.uniform(0.8, 1.5), 8), dy(rng.uniform(-30, -1), 6), dy(rng.uniform(1, 30), 6)
+        phi, dphi = dy(rng.uniform(0.1, 2.5), 8), dy(rng.uniform(-1, 1), 8)
+        fp = Fields([float(phi)]).getFieldPoint(0)
+        dpp = Fields([float(dphi)]).getFieldPoint(0)
+        pre = "unfold eom_plasmaVelocity, %s; cbn [veff_dT veff];" % ee
+        goal("eom_plasmaVelocity %s %s %s %s" % (ee, R(phi), R(T), R(s1)),
+             eom.plasmaVelocity(fp, float(T), float(s1)), pre)
+        pre = "unfold eom_temperatureProfileEqLHS, %s; cbn [veff_dT veff];" % ee
+        goal("eom_temperatureProfileEqLHS %s %s %s %s %s %s" % (ee, R(phi), R(dphi), R(T),
+                                                               R(s1), R(s2)),
+             eom.temperatureProfileEqLHS(fp, dpp, float(T), float(s1), float(s2)), pre)
+        # grid parameters
+        L = dy(rng.uniform(1, 8), 6)
+        r, sm = rng.choice([Fraction(3, 10), Fraction(1, 2)]), rng.choice([Fraction(1, 10), Fraction(1, 4)])
+        tin = dy(float(L * (Fraction(1, 2) + sm) / r) * rng.uniform(1.2, 6), 6)
+        tout = dy(float(L * (Fraction(1, 2) + sm) / r) * rng.uniform(1.2, 6), 6)
+        g1 = Grid3Scales(6, 3, float(tin), float(tout), float(L), 1.0, float(r), float(sm), 0.0)
+        call = "(gr_updateParameters (mk_gr_env tt) (mk_gr_st 0 0 0 0 0 0 0 0) %s %s %s %s %s 0)" % (
+            R(tin), R(tout), R(L), R(r), R(sm))
+        names = " ".join(["gr_updateParameters", "gr_aIn", "gr_aOut"] +
+                         ["set_gr_" + a for a in gen_units.GRID_ATTRS])
+        pre = "cbv beta iota zeta delta [%s];" % names
+        goal("gr_aIn %s" % call, g1.aIn, pre)
+        goal("gr_aOut %s" % call, g1.aOut, pre)
+    return hdr + "\n".join(goals) + "\n", rows
+
+
+# =====================================================================================
+
+def parse_reviewed():
+    with open(os.path.join(vlib.COQ, "Props", "C07.v")) as f:
+        text = f.read()
+    text = text[text.index("Definition reviewed_sites"):]
+    out = []
+    for m in REVIEWED_RE.finditer(text):
+        out.append((m.group(1), m.group(2), m.group(3), m.group(4),
+                    None if m.group(5) is None else int(m.group(5)), int(m.group(6))))
+    return out
+
+
+def run(ctx):
+    # ---- 1. gen ---------------------------------------------------------------------
+    gen_ok = True
+    sites = None
+    try:
+        src = {f: vlib.read_src(f) for f in set(SRC_FILES + gen_units.SIG_FILES)}
+        ttext, tr = gen_thermo.generate(vlib.read_src("thermodynamics.py"))
+        ctx.write("Thermo.v", ttext, sources=dict(file="src/WallGo/thermodynamics.py",
+                                                  sha=vlib.sha(src["thermodynamics.py"]),
+                                                  spans=tr.spans))
+        utext, spans, asserts = gen_units.generate_formulas(src)
+        ctx.write("UnitsGen.v", utext, sources=dict(
+            files=["src/WallGo/" + f for f in SRC_FILES],
+            sha={f: vlib.sha(src[f]) for f in SRC_FILES}, spans=spans,
+            preconditions_recorded=asserts))
+        sites = gen_units.tolerance_sites(src)
+        ctx.write("Sites.v", gen_units.sites_coq(sites), sources=dict(
+            files=["src/WallGo/" + f for f in gen_units.SITE_FILES],
+            sha={f: vlib.sha(src[f]) for f in gen_units.SITE_FILES}))
+    except (pyrx.TranslateError, SyntaxError, KeyError, OSError) as e:
+        ctx.log("translator failed:", repr(e))
+        ctx.broken.append("translator: %s" % e)
+        gen_ok = False
+    # ---- 2. prove -------------------------------------------------------------------
+    proved = gen_ok and ctx.prove(extra=["Thermo.v", "UnitsGen.v", "Sites.v"])
+    ctx.trusted += ["tools/pyrx.py + tools/gen_thermo.py + tools/gen_units.py (AST translator, "
+                    "dimensional analysis with the reviewed naming table DIMS)",
+                    "Interval tactic (certified evaluation)"]
+    sites_changed = False
+    if sites is not None:
+        reviewed = parse_reviewed()
+        new = [s for s in sites if s not in reviewed]
+        gone = [s for s in reviewed if s not in sites]
+        sites_changed = bool(new or gone)
+        for s in new:
+            ctx.log("NEW tolerance/dimension site:", s)
+        for s in gone:
+            ctx.log("reviewed site no longer present:", s)
+        ctx.count("tolerance_sites", bucket="recorded=%d" % len(sites))
+        ctx.sample(dict(tolerance_sites=[list(s) for s in sites[:4]]))
+    # ---- 3. correspondence: generated definitions vs implementation --------------------
+    if gen_ok:
+        try:
+            text, rows = corr_file(ctx.rng, ctx.n(2, 10))
+            p = ctx.write("Cases/Corr.v", text)
+            ok, out, err = ctx.coqc(p, timeout=600)
+            for _ in rows:
+                ctx.count("certified_eval")
+            if not ok:
+                ctx.broken.append("correspondence: certified evaluation of the generated "
+                                  "formulas (%s)" % vlib.locate_failure(text, err))
+                ctx.log("certified evaluation failed", vlib.tail(err, 8))
+        except Exception as ex:
+            ctx.log("correspondence raised", traceback.format_exc())
+            ctx.broken.append("harness: correspondence raised %r" % ex)
+    # ---- 4. direct validation -----------------------------------------------------------
+    try:
+        direct_formula_checks(ctx, ctx.n(25, 300))
+    except Exception as ex:
+        ctx.log("formula checks raised", traceback.format_exc())
+        ctx.broken.append("harness: formula checks raised %r" % ex)
+    # metamorphic end-to-end runs
+    search = bool(ctx.broken) or sites_changed
+    W, H = ("lte", "wall"), ("lte",)
+    if ctx.quick and not search:
+        plan = [("yukawa", "default", [1e-2, 100.0], W), ("quarticwide", "default", [1e-2], H)]
+    elif ctx.quick:
+        # a proof obligation / the site list / the correspondence is broken: widen the search
+        plan = [("yukawa", "default", [1e-2, 1e-1, 10.0, 100.0], W),
+                ("quarticwide", "default", [1e-2, 100.0], W)]
+    else:
+        plan = [(m, t, [1e-2, 1e-1, 10.0, 100.0], W) for m in ("yukawa", "quarticwide")
+                for t in ("default", "tight")] + [("yukawa4", "default", [1e-2, 100.0], W)]
+    jobs = []
+    for m, t, units, stages in plan:
+        for u in [1.0] + units:
+            jobs.append((m, u, t, stages))
+    t0 = time.time()
+    with multiprocessing.Pool(min(len(jobs), 16)) as pool:
+        results = pool.map(solve_case, jobs)
+    ctx.log("metamorphic runs: %d solves in %.0fs" % (len(jobs), time.time() - t0))
+    byk = {(r["model"], r["tols"], r["unit"]): r for r in results}
+    for m, t, units, stages in plan:
+        ref = byk[(m, t, 1.0)]
+        if "raised" in ref:
+            ctx.log("reference run raised:", m, t, ref["raised"])
+        for u in units:
+            r = byk[(m, t, u)]
+            ctx.count("metamorphic_run", dict(model=m, tols=t, unit=u), bucket="unit=%g" % u)
+            bad = compare_runs(ctx, ref, r, TOLSETS[t], t)
+            ctx.log("metamorphic %-11s %-7s unit x%-6g %s  vw=%s width*Tn=%s (%.0fs)" % (
+                m, t, u, "DEVIATES in " + ",".join(bad) if bad else "covariant",
+                r.get("vw"), (r.get("width") or 0) * r.get("Tn", 0), r["seconds"]))
+            # phase-range information (outside the quantifier when a phase ends early)
+            if "TMaxLowT" in r and "TMaxLowT" in ref:
+                a, b = ref["TMaxLowT"] / ref["Tn"], r["TMaxLowT"] / r["Tn"]
+                if abs(a - b) > 0.02 * a:
+                    ctx.log("  note: end of the traced low-T phase differs: TMaxLowT/Tn = "
+                            "%.4f vs %.4f (spinodal inside the requested range; vJ = %.5f vs "
+                            "%.5f)" % (a, b, ref["vJ"], r["vJ"]))
+    ctx.sample(dict(metamorphic_reference={k: v for k, v in byk[(plan[0][0], plan[0][1], 1.0)].items()
+                                           if k not in ("trace",)}))
+    ctx.cov["rule"] = (
+        "formula level: random bag-like EOS / analytic free-energy tables / homogeneous "
+        "quartic potentials / grid parameters, unit factor from {1e-2,1e-1,0.5,3,10,100}; "
+        "each proved law is evaluated on the real class methods (5 temperatures per phase "
+        "from 0.3 TMin to 4 TMax). End to end: WallGoManager on the Yukawa-type model (Tn=1 "
+        "and Tn=4 presentations) and a wide-coexistence quartic model, unit factors 1e-2..1e2, "
+        "default and tightened tolerances; distinct = distinct (model, tolerance set, factor)")
+    ctx.assumptions += [
+        "scipy's internal absolute defaults (Nelder-Mead xatol/fatol=1e-4, minimize gtol, "
+        "minimize_scalar xatol) are not modelled; they are exercised only by the metamorphic "
+        "runs",
+        "the free-energy tables and the effective potential of the rescaled model are the "
+        "rescaled functions (sc4/sc3/sc2 in Lib/UnitsEos.v): true of any potential that is "
+        "presented consistently in the new units",
+        "EOM formulas are translated for one scalar field and scalar position"]
+
+
+def replay(rep):
+    print(json.dumps({k: v for k, v in rep.items() if k != "trace"}, indent=1))
+    if rep.get("kind") == "metamorphic":
+        u0, u1 = rep["units"]
+        a = solve_case((rep["model"], u0, rep["tols"], ("lte", "wall")))
+        b = solve_case((rep["model"], u1, rep["tols"], ("lte", "wall")))
+        for q in DIMLESS + list(DIMFUL):
+            if q in a and q in b:
+                d = DIMFUL.get(q, 0)
+                print("%-12s %-18.10g %-18.10g (dimension %d)" % (
+                    q, a[q], b[q] / (u1 / u0) ** d, d))
+        print("raised:", a.get("raised"), "|", b.get("raised"))
+    return 0
